@@ -40,6 +40,8 @@ def compare_exact(got, exp, check_meta=True):
         if [g[4] for g in got] != [e[4] for e in exp]:
             problems.append("start_line got=%s expected=%s" % ([g[4] for g in got], [e[4] for e in exp]))
         for g, e in zip(got, exp):
+            if e[3] is None and g[3] is not None and getattr(e[0], "reentrant", False):
+                continue  # a with without `as` on a re-entrant manager that another with of the frame did name: the local's name is fine
             if g[3] != e[3]:
                 problems.append("varname got=%r expected=%r for %r" % (g[3], e[3], e[0]))
     return problems
@@ -138,6 +140,10 @@ def run_program(body, kind, ctx, make_observer, case_extra=None, src_withs=None,
                     "where": where, "n": nn}
             if case_extra:
                 case.update(case_extra)
+            if ns is not None and "ns" not in case:
+                for nm, v in ps.NAMESPACES.items():
+                    if v is ns:
+                        case["ns"] = nm
             if ctx is not None:
                 ctx.violation(case, "; ".join(problems)[:1500], sig_of(problems))
         taken = tuple(rt.taken)
@@ -155,6 +161,8 @@ def sig_of(problems):
 
 
 def replay_case(case, make_observer, ns=None):
+    if case.get("ns") in ps.NAMESPACES:
+        ns = ps.NAMESPACES[case["ns"]]
     withs = dict((w[0], (w[1], w[2], w[3])) for w in case["withs"])
     fn = ps.compile_prog(case["src"], ns=ns)
     obs = make_observer(withs)
